@@ -94,7 +94,10 @@ def execute(b, pieces, path):
         pieces = list(pieces) + [len(b.data) - sum(pieces)]
     if path == 'class':
         return X.run_class(b.dec, b.data, pieces)
-    ev, content, delivered = X.run_stream(b.dec, b.data, pieces, path)
+    if path.startswith('after-'):
+        ev, content, delivered = X.run_stream(b.dec, b.data, pieces, 'length', prior=path[6:])
+    else:
+        ev, content, delivered = X.run_stream(b.dec, b.data, pieces, path)
     return ev
 
 
@@ -166,6 +169,10 @@ def run(chk):
             if path in ('close', 'chunked') and not quick and len(b.data) > 7:
                 continue
             runs.append((b, pieces, path, execute(b, pieces, path), 'tlc'))
+        # the same Stream has already read a response with another (or the same) content coding
+        if si % (5 if quick else 2) == 0:
+            for prior in ('gzip', 'deflate', 'none'):
+                runs.append((b, pieces, 'after-' + prior, execute(b, pieces, 'after-' + prior), 'tlc'))
     for (b, pieces) in random_cases(rng, 150 if quick else 4000):
         for path in ('class', 'length'):
             runs.append((b, pieces, path, execute(b, pieces, path), 'random'))
